@@ -1,6 +1,6 @@
 (* C19 property theorems (statements only; proofs in AbiOutProofs.v). *)
 From Coq Require Import ZArith List Bool String.
-From Verif Require Import C19.AbiOut C19.AbiOutProofs.
+From Verif Require Import C19.AbiOut C19.AbiOutProofs C19.Mutability.
 Import ListNotations.
 Open Scope string_scope.
 
@@ -58,6 +58,19 @@ Theorem getter_keys : forall k v t n,
   getter_sig (PVal (VDArr t n)) = (UINT256 :: fst (getter_sig (PVal t)), snd (getter_sig (PVal t))).
 Proof. intros. split; [apply getter_map_key | apply getter_array_key]. Qed.
 Print Assumptions getter_keys.
+
+(* stateMutability: every entry's string decodes (StateMutability.from_abi) to the declared mutability, so a caller
+   compiled against the ABI uses STATICCALL iff view/pure, may attach value iff payable, and the dispatcher's
+   payable bit is the JSON's "payable".  (That the body of a view function is write-free is C11; that STATICCALL
+   enforces it is C12.) *)
+Theorem mutability_consistent : forall f e, In e (to_toplevel_abi f) ->
+  mut_from_abi (show_mut (e_mut e)) = Some (fmut f) /\
+  (forall m, mut_from_abi (show_mut (e_mut e)) = Some m ->
+     (use_staticcall m = true <-> (fmut f = Pure \/ fmut f = View)) /\
+     (value_kwarg_allowed m = is_payable (fmut f)) /\
+     (is_payable m = true <-> show_mut (e_mut e) = "payable")).
+Proof. exact mutability_consistent_thm. Qed.
+Print Assumptions mutability_consistent.
 
 (* non-vacuity: a nested public variable and a function with two defaults *)
 Example ex_getter :
